@@ -3,7 +3,7 @@ import inspect
 
 from .. import core, e1, e2
 from ..core import Result, outcome, enc, dec, exc_site
-from ..tables.options import option_sets
+from ..tables.options import option_sets, option_combos
 from ..tables.c04_normalise import normalise, DOCUMENTED
 
 ID = 'C04'
@@ -104,6 +104,7 @@ def work(item):
     quick = tier != 'thorough'
     states, transitions, sv = e1.module_states(name, tier, nseeds=3 if quick else None, with_short=False)
     fopts, unknown = option_sets(name, m.format)
+    fopts = fopts + option_combos(name, m.format)
     values, st = e2.valid_set(name, m, tier, nseeds=6 if quick else 30, cap=300 if quick else 4000)
     cand = dict(states)
     for v in values:
